@@ -304,6 +304,50 @@ where
 }
 
 
+/// A zero-sized, over-aligned value type: typed requests for it never touch the allocator, whichever twin carries them.
+#[derive(Clone, Copy, Default)]
+#[repr(align(8))]
+pub struct Z8;
+
+fn zst_on<'a, B: BumpAllocatorTypedScope<'a> + ?Sized>(b: &B, m: usize, try_: bool, n: usize) -> Result<(), ()> {
+    let src = vec![Z8; n];
+    match m % 8 {
+        0 => {
+            if try_ { b.try_alloc(Z8).map(drop).map_err(drop) } else { Ok(drop(b.alloc(Z8))) }
+        }
+        1 => {
+            if try_ { b.try_alloc_with(|| Z8).map(drop).map_err(drop) } else { Ok(drop(b.alloc_with(|| Z8))) }
+        }
+        2 => {
+            if try_ { b.try_alloc_slice_copy(&src).map(drop).map_err(drop) } else { Ok(drop(b.alloc_slice_copy(&src))) }
+        }
+        3 => {
+            if try_ { b.try_alloc_slice_fill(n, Z8).map(drop).map_err(drop) } else { Ok(drop(b.alloc_slice_fill(n, Z8))) }
+        }
+        4 => {
+            if try_ { b.try_alloc_slice_fill_with(n, || Z8).map(drop).map_err(drop) } else { Ok(drop(b.alloc_slice_fill_with(n, || Z8))) }
+        }
+        5 => {
+            if try_ { b.try_alloc_uninit_slice::<Z8>(n).map(drop).map_err(drop) } else { Ok(drop(b.alloc_uninit_slice::<Z8>(n))) }
+        }
+        6 => {
+            if try_ { b.try_alloc_iter(src.iter().copied()).map(drop).map_err(drop) } else { Ok(drop(b.alloc_iter(src.iter().copied()))) }
+        }
+        _ => {
+            if try_ { b.try_alloc_default::<Z8>().map(drop).map_err(drop) } else { Ok(drop(b.alloc_default::<Z8>())) }
+        }
+    }
+}
+
+fn zst_side<'a, A, S>(h: &mut Handle<'_, 'a, A, S>, c: usize, m: usize, try_: bool, n: usize) -> Result<(), ()>
+where
+    A: BaseAllocator<S::GuaranteedAllocated>,
+    S: BumpAllocatorSettings,
+{
+    on_carrier!(h, c, 'a, |b| zst_on(b, m, try_, n))
+}
+
+
 /// `alloc_try_with` and its `_mut` / `try_` twins (inherent methods of `Bump` and `BumpScope`).
 fn try_with_side<'a, A, S>(h: &mut Handle<'_, 'a, A, S>, m: usize, ty: u8, seed: u8, err: bool) -> Result<Option<(*mut u8, usize)>, ()>
 where
@@ -397,6 +441,19 @@ where
                 let b = str_side(&mut r, cr, op.a[5] as usize, &s);
                 what = format!("string of {} bytes: method {} on {} vs method {} on {}", s.len(), op.a[4] % 4, carrier_name(root, cl), op.a[5] % 4, carrier_name(root, cr));
                 compare_new(it, a, b, 1, 0, s.len(), &what);
+            }
+            K_ZST => {
+                // the panicking method against its try_ twin, same carrier, for a zero-sized over-aligned value type
+                let n = op.a[2] as usize % 6;
+                let m = op.a[4] as usize;
+                let a = zst_side(&mut l, cl, m, false, n);
+                let b = zst_side(&mut r, cl, m, true, n);
+                let names = ["alloc", "alloc_with", "alloc_slice_copy", "alloc_slice_fill", "alloc_slice_fill_with", "alloc_uninit_slice", "alloc_iter", "alloc_default"];
+                what = format!("{} vs try_{} of {n} zero-sized (align 8) values on {}", names[m % 8], names[m % 8], carrier_name(root, cl));
+                it.stats.probe("lock.zst_twins");
+                if a.is_ok() != b.is_ok() {
+                    it.viol("C17/outcome-differs", format!("{what}: the two entry points disagree about the outcome"));
+                }
             }
             K_TRY_WITH => {
                 let ty = (op.a[2] % 3) as u8;
